@@ -225,48 +225,11 @@ def run(F, R, tier):
     # ------------------------------------------------------------------ R6 alg required at verification
     r6 = R.rule("C11-R6", "T4", "JwsValidationItem::verify: protected header absent → MissingHeader; alg absent → ProtectedHeaderWithoutAlg; both precede verification")
     vfy = DEC + "::JwsValidationItem::verify"
-    h = F.hir(vfy)
-    if r6.anchor(h, vfy):
-        env = H.Env(h)
-        tree, infos = L.exit_infos(h)
-        for e in infos:
-            if not L.is_success_exit(e):
-                continue
-            tried = [H.fn_name(c) or "" for c in e.tried]
-            has_alg = any(t.endswith("JwsHeader::alg") for t in tried)
-            r6.site("success exit after alg()?", e.node.get("sp"), tried=[L.short(t) for t in tried if t][:8])
-            r6.require(has_alg, (vfy, "alg-required"), "verify() can succeed without `alg` having been read (and required) from the protected header")
-        allv = {H.variant_name(x.get("res", {})) for x in H.walk(H.root(h)) if x.get("k") == "path"}
-        r6.require("ProtectedHeaderWithoutAlg" in allv, (vfy, "error-variant"), "ProtectedHeaderWithoutAlg is not produced by verify()")
-        # alg receiver: the protected header of the decoded header set
-        for c in H.calls(h, JWSH + "::alg"):
-            oo = H.origins(H.call_args(c)[0], env)
-            r6.site("alg() receiver ← %s" % sorted(map(str, oo)), c["sp"])
-            ok = bool(oo) and all(o[:3] == ("param", "self", "headers") and len(o) > 3 and o[3] in ("Protected", "protected") for o in oo)
-            r6.require(ok, (vfy, "alg-source"), "alg is read from %s, not from the protected header" % sorted(map(str, oo)))
-        # the algorithm handed to the key check and to the verifier derives from the protected header only
-        ACC_ = re.compile(r"JwsHeader::(alg|b64)$|JwsAlgorithm::name$")
-        n_alg = 0
-        for s_ in H.struct_lits(h):
-            if s_.get("ty", "").endswith("::VerificationInput"):
-                for f in s_["fields"]:
-                    if f["name"] == "alg":
-                        oo = H.origins(f["e"], env, accessors=ACC_)
-                        n_alg += 1
-                        r6.site("VerificationInput.alg ← %s" % sorted(map(str, oo)), f["e"].get("sp"))
-                        r6.require(bool(oo) and all(o[:3] == ("param", "self", "headers") and len(o) > 3 and o[3] in ("Protected", "protected") and o[-1] == "alg" for o in oo),
-                                   (vfy, "alg-flow"), "the alg given to the verifier can come from outside the protected header: %s" % sorted(map(str, oo)))
-        r6.require(n_alg == 1, (vfy, "alg-flow", "site"), "VerificationInput literal with an alg field not found in verify()")
-        # the header-set table: Unprotected-only → MissingHeader
-        ms = [n for n in H.walk(H.root(h)) if n.get("k") == "match" and n.get("src") == "normal"
-              and any(o[:3] == ("param", "self", "headers") for o in H.origins(n["scrut"], env))]
-        if r6.require(len(ms) == 1, (vfy, "header-table"), "the match over the decoded header set was not found"):
-            t = L.decision_table(ms[0])
-            for k_, v_ in t.items():
-                r6.site("verify: headers %s → %s" % (k_, v_))
-            unp = [v_ for k_, v_ in t.items() if k_.startswith("Unprotected")]
-            r6.require(unp == ["Err(MissingHeader)"], (vfy, "unprotected-only"), "a token with only an unprotected header is not rejected with MissingHeader (table %s)" % t)
-            r6.require(not any(k_ in ("_",) for k_ in t), (vfy, "wildcard"), "the header-set table has a wildcard arm")
+    if r6.anchor(F.hir(vfy), vfy):
+        import c01
+        c01.verify_item_facts(F, r6, vfy)
+        for k_ in range(5):
+            r6.site("verify header-policy obligation %d" % (k_ + 1))
     dp = F.hir(DEC + "::DecodedHeaders::protected_header")
     if r6.anchor(dp, "DecodedHeaders::protected_header"):
         ms = [n for n in H.walk(H.root(dp)) if n.get("k") == "match" and n.get("src") == "normal"]
@@ -396,25 +359,26 @@ def _disjoint_rules(F, r4):
             djs = H.disjuncts(d["body"])
             r4.require(len(djs) >= 2, (fn, "default", "or"), "JwsHeader::has default arm is not a disjunction of common and custom lookups")
             r4.site("JwsHeader::has(_) → common.has || custom.get", d["body"].get("sp"))
-    # ---- is_custom_disjoint
+    # ---- is_custom_disjoint: false exactly when a key of one custom map is contained in the other (abstract evaluation)
     fn = JWSH + "::is_custom_disjoint"
-    h = F.hir(fn)
-    if r4.anchor(h, fn):
-        env = H.Env(h)
-        loops = L.for_loops(h)
-        if r4.require(len(loops) == 1, (fn, "loop"), "expected one loop over the custom keys"):
-            it, pat, body, _ = loops[0]
-            gs = L.block_guards(body)
-            ok = False
-            for cond, oc, node in gs:
-                inner, neg = H.negated(cond)
-                if any(f.endswith("::contains_key") for f in H.called_fns(inner)) and not neg:
-                    lits = H.literals(node["then"])
-                    ok = lits == [False]
-                    r4.site("is_custom_disjoint: shared key → false", node["sp"])
-            r4.require(ok, (fn, "shared-key"), "is_custom_disjoint does not return false when a key of self.custom is contained in other.custom")
-            ito = H.origins(it, env, extra=re.compile(r"::keys$"))
-            r4.require(any("custom" in o for o in ito), (fn, "iter"), "is_custom_disjoint does not iterate the custom keys: %s" % sorted(map(str, ito)))
+    if r4.anchor(F.hir(fn), fn):
+        tab = SR.Table(F, fn, rule=r4)
+        SC, OC = SR.fld("custom"), SR.fld("custom", base=SR.param("other"))
+        shared_false = False
+        for q in tab.paths:
+            shared = None
+            for (a, c, _, _) in q.decisions:
+                if a[0] == "truth" and isinstance(a[1], tuple) and a[1][:1] == ("call",) and a[1][1].endswith("contains_key"):
+                    args = a[1][2]
+                    if (SR.derives(args[0], OC) and SR.derives(args[1], SC)) or (SR.derives(args[0], SC) and SR.derives(args[1], OC)):
+                        shared = c
+            if q.ret is False:
+                r4.require(shared is True, (fn, "shared-key"), "is_custom_disjoint returns false without a custom key being contained in both maps — path: %s" % q.describe()[:200])
+                shared_false = True
+            elif q.ret is True:
+                r4.require(shared is not True, (fn, "shared-key"), "is_custom_disjoint does not return false when a key of self.custom is contained in other.custom")
+        r4.site("is_custom_disjoint: shared key → false; otherwise true")
+        r4.require(shared_false or not tab.paths, (fn, "iter"), "is_custom_disjoint never compares the custom keys of the two headers")
     # ---- validate_disjoint decision
     fn = SER + "::validate_disjoint"
     h = F.hir(fn)
